@@ -102,6 +102,12 @@ CHECKS = {
                      "Pythagorean angles): on every path cell z3 decides, with the query point free, that the result mapped back by T^-1 denotes A op B (independent oracle on the "
                      "concrete operands), that kind is that of the identity run and area = s^2 * area; T(p) in T(S) <=> p in S with symbolic p.",
                 technique="symbolic execution of the real code (SYMX) with a symbolic similarity parameter + z3 per path cell"),
+    "C16": dict(level="model_checking", design="4/C16",
+                text="Primitive.square/triangle/regular_polygon(4)/polygon under SYMX with symbolic size and centre (vertex formulas, closed-form area, orientation, centre in / far "
+                     "point out, ValueError for non-positive size on every path); Primitive.circle with symbolic radius and centre, ndivangle 4..64: z3 (non-linear reals, curve "
+                     "parameter free) decides that every arc stays in the quadratic-approximation band and the integrated area lies in [pi r^2, pi(1+delta)^2 r^2]; invalid integer "
+                     "parameters raise ValueError.",
+                technique="symbolic execution of the real code (SYMX) + z3 (QF_NRA band lemma per arc, identities)"),
 }
 NA = {}
 
